@@ -342,8 +342,32 @@ func (in *Interp) violation(label, known string) Violation {
 		v.Notes = append(v.Notes, "model read failed: "+err.Error())
 		return v
 	}
+	// the model's length of each free string (strlen): the realised string is padded up to it, so
+	// that code branching on len(s) takes natively the branch it took in the model
+	var lens []*smt.Term
+	in.C.DeclareFun("strlen", []smt.Sort{smt.Str}, smt.Int)
+	for _, n := range p.nondets {
+		if n.Term.Sort.K == smt.KStr {
+			lens = append(lens, in.C.App("strlen", n.Term))
+		}
+	}
+	var lvals []*smt.Term
+	if len(lens) > 0 {
+		lvals, _ = p.sess.Values(lens)
+	}
+	k := 0
 	for i, n := range p.nondets {
-		v.Values = append(v.Values, NondetValue{Name: n.Name, Kind: n.Kind, Val: in.renderValue(n.Kind, vals[i])})
+		val := in.renderValue(n.Kind, vals[i])
+		if n.Term.Sort.K == smt.KStr {
+			if k < len(lvals) && lvals[k] != nil && lvals[k].Val != nil && lvals[k].Val.IsInt64() {
+				// only free atoms (~opqN~ / ~litN~) are padded: numerals, hash strings and program literals have their own length
+				if l := lvals[k].Val.Int64(); l > int64(len(val)) && l <= 4096 && strings.HasPrefix(val, "~") && strings.HasSuffix(val, "~") {
+					val += strings.Repeat("x", int(l)-len(val))
+				}
+			}
+			k++
+		}
+		v.Values = append(v.Values, NondetValue{Name: n.Name, Kind: n.Kind, Val: val})
 	}
 	return v
 }
